@@ -508,7 +508,10 @@ func c07R3(c *Ctx) {
 			continue
 		}
 		errObj := lhs[0]
-		c.Require("C07.R3", "ENI reset only under err == nil", fn, st.Node, "$e == nil", map[string]string{"$e": errObj.Name()})
+		// (on the object: after a helper was expanded the variable may live in an inner block)
+		c.RequireF("C07.R3", "ENI reset only under err == nil", fn, st.Node, "the error of DeleteNetworkInterface is nil", func(e *FactEngine) (*Formula, error) {
+			return e.eqAtom(objID(errObj), "nil", []string{objID(errObj)}), nil
+		})
 		// every path from entry/loop to the reset passes the delete call after any rate-limit error assignment
 		w := q.Escapes(func(nd ast.Node) bool {
 			if nd.Pos() <= del.Pos() && del.End() <= nd.End() {
